@@ -141,7 +141,10 @@ func CheckConv(props map[string]bool, s Scenario, o Outcome) []Finding {
 			add("C10", "value-on-error", "Convert returned an error together with a non-nil value %s", c.ConvTerm)
 		}
 	} else {
-		if c.ConvNil {
+		if c.ConvNil && comparable && c.CallErr == nil && c.CallTerm == "<nil>" {
+			// the call would inject a nil interface value (a converter returned one):
+			// a nil result without error is then the value
+		} else if c.ConvNil {
 			add("C10", "nil-on-success", "Convert returned neither a value nor an error")
 		} else {
 			if !c.ConvType.AssignableTo(T) {
